@@ -29,6 +29,8 @@ type Prog struct {
 	ssaProg *ssa.Program
 	ssaPkgs []*ssa.Package
 	cg      *callgraph.Graph
+
+	CanonA, CanonB int // statements rewritten by canonicalise (if-panic -> Assert, else-after-terminator flattened)
 }
 
 func short(pkgPath string) string {
@@ -83,6 +85,11 @@ func loadProg(repo string) (*Prog, error) {
 	}
 	if len(p.Mod) < 22 {
 		return p, fmt.Errorf("only %d module packages loaded (expected >= 22)", len(p.Mod))
+	}
+	// the SSA form is built from the parsed trees as they are; only then are the trees canonicalised for the AST/CFG rules
+	p.SSA()
+	if os.Getenv("YAE_NO_CANON") == "" {
+		p.canonicalise()
 	}
 	return p, nil
 }
